@@ -332,3 +332,11 @@ cover_fn = FunctionContract(
 )
 cover_fn.recursive = True
 CONTRACTS.append(cover_fn)
+
+# Molecule.edges_between (contract of C12: every bond from the first set of atoms into the second, each once): what the loop over
+# two placements above takes as `medges`; re-verified here
+import copy as _copy
+from contracts import c12 as _c12
+_eb = _copy.copy(_c12.edges_between)
+_eb.prop = 'C01'
+CONTRACTS.append(_eb)
